@@ -4,6 +4,7 @@ import (
 	"fmt"
 	"go/token"
 	"go/types"
+	"unsafe"
 
 	"golang.org/x/tools/go/ssa"
 )
@@ -196,6 +197,32 @@ func registerReflect() {
 			in.reflectPanic("IsZero")
 		}
 		return in.reflectIsZero(t, v)
+	}
+	intrinsics["(reflect.Value).Pointer"] = func(in *Interp, caller *frame, fn *ssa.Function, args []Value) Value {
+		_, v, fl := rvParts(args[0])
+		if fl == 0 {
+			in.reflectPanic("Pointer")
+		}
+		// an address-like identity: equal for the same engine object, distinct for different ones, 0 for nil
+		switch v := v.(type) {
+		case *Value:
+			if v == nil {
+				return int64(0)
+			}
+			return int64(uintptr(unsafe.Pointer(v)))
+		case *Map:
+			if v == nil {
+				return int64(0)
+			}
+			return int64(uintptr(unsafe.Pointer(v)))
+		case []Value:
+			if cap(v) == 0 {
+				return int64(0)
+			}
+			return int64(uintptr(unsafe.Pointer(&v[:1][0])))
+		}
+		in.unsupported("reflect.Value.Pointer on this kind of value")
+		return nil
 	}
 	intrinsics["(reflect.Value).Elem"] = func(in *Interp, caller *frame, fn *ssa.Function, args []Value) Value {
 		t, v, fl := rvParts(args[0])
